@@ -112,8 +112,10 @@ def make_case(seed, shard_index, i):
         labels.add("null:non-default-prefix")
     if not pt:
         return None
+    via = "agp" if rng.random() < 0.2 else False
+    crlf = bool(via) and rng.random() < 0.5
     return {"kind": "remap", "gen": "null", "t": t, "input": inp, "pretext": pt, "pieces": pieces, "prefix": prefix,
-            "painted": painted, "hapnames": hapnames, "labels": sorted(labels), "via_text": rng.random() < 0.15, "id": [seed, shard_index, i]}
+            "painted": painted, "hapnames": hapnames, "labels": sorted(labels | ({"null:pretext-text-with-crlf"} if crlf else set())), "via_text": via, "pretext_crlf": crlf, "id": [seed, shard_index, i]}
 
 
 def oracle(case, outcome, ctx):
@@ -303,6 +305,7 @@ def gates(c, tier):
         "cli-null-ok:unpainted": 300,
         "label:null:bait-undershoots": 500,
         "label:null:unknown-orientation-line": 1000,
+        "label:null:pretext-text-with-crlf": 1000,
         "label:null:bait-overshoots": 500,
         "label:null:subtexel-absent": 100,
         "label:null:subtexel-present": 100,
